@@ -10,9 +10,36 @@ package rules
 
 // ---- C14: stage-wise inheritance, backtracking inheritance, rejection of malformed rules ----
 
+// "A rule whose execute list is not ordered authenticators, then authorizers/contextualizers, then
+// finalizers ... is rejected": when the list is accepted, the authenticator steps are exactly a
+// prefix of it and the finalizer steps exactly a suffix, every step is of one of the four kinds, and
+// the three pipelines have one entry per step of their stage. (The kind of a step is the first of
+// the keys authenticator, authorizer, contextualizer, finalizer it has.)
+// createHandler is translated in place (its check callback and the bound factory method are then
+// known closures); a CEL execution condition is a fresh object
+//@ func createHandler
+//@   props C14
+//@   inline
+
+//@ func newCelExecutionCondition
+//@   props C14
+//@   modifies elems(cel.EnvOption)
+//@   ensures !Is(ret1, errHandlerNotFound)
+
+//@ spec stepFin(s config.MechanismConfig) bool = !has(s, "authenticator") && !has(s, "authorizer") && !has(s, "contextualizer") && has(s, "finalizer")
+//@ spec stepMid(s config.MechanismConfig) bool = !has(s, "authenticator") && (has(s, "authorizer") || has(s, "contextualizer"))
 //@ func (*ruleFactory).createExecutePipeline
 //@   props C14
 //@   logged pipe
+//@   loop 0 invariant len(authenticators) + len(subjectHandlers) + len(finalizers) == idx + 1 && idx + 1 <= len(pipeline)
+//@   loop 0 invariant forall i int :: 0 <= i && i <= idx ==> (has(pipeline[i], "authenticator") <==> i < len(authenticators))
+//@   loop 0 invariant forall i int :: 0 <= i && i <= idx ==> (stepFin(pipeline[i]) <==> i >= idx + 1 - len(finalizers))
+//@   loop 0 invariant forall i int :: 0 <= i && i <= idx ==> has(pipeline[i], "authenticator") || stepMid(pipeline[i]) || stepFin(pipeline[i])
+//@   ensures ret3 == nil ==> len(ret0) + len(ret1) + len(ret2) == len(pipeline)
+//@   ensures ret3 == nil ==> forall i int :: 0 <= i && i < len(pipeline) ==> (has(pipeline[i], "authenticator") <==> i < len(ret0))
+//@   ensures ret3 == nil ==> forall i int :: 0 <= i && i < len(pipeline) ==> (stepFin(pipeline[i]) <==> i >= len(pipeline) - len(ret2))
+//@   ensures ret3 == nil ==> forall i int :: 0 <= i && i < len(pipeline) ==> has(pipeline[i], "authenticator") || stepMid(pipeline[i]) || stepFin(pipeline[i])
+//@   ensures ret3 != nil ==> ret0 == nil && ret1 == nil && ret2 == nil
 
 //@ func (*ruleFactory).createOnErrorPipeline
 //@   props C14
@@ -300,10 +327,12 @@ package rules
 //@   requires conf == nil || typeIs(conf, "map[string]any")
 
 //@ func mechanismRef
-//@   props C19
+//@   props C19 C14
 //@   safety nonil
+//@   modifies nothing
 //@   ensures !typeIs(id, string) ==> ret2 != nil
 //@   ensures conf != nil && !typeIs(conf, "map[string]any") ==> ret2 != nil
+//@   ensures !Is(ret2, errHandlerNotFound)
 
 // ---- C06 / C07: rule set changes are prepared on a private copy of the index and published by one
 // pointer store; a change that cannot be applied leaves index and bookkeeping untouched ----
